@@ -38,6 +38,7 @@ type c15Req struct {
 type c15Case struct {
 	Signed bool     `json:"sign_and_encrypt"`
 	User   string   `json:"user"`
+	LongKey bool    `json:"long_signing_key,omitempty"` // sign-and-encrypt mode with a 64-character signing key (long enough for HS384/HS512, which must still be refused)
 	Reqs   []c15Req `json:"requests"`
 }
 
@@ -47,11 +48,15 @@ const (
 	c15OtherKey = "some-other-key-of-32-characters!"
 )
 
-var c15Kinds = []string{"minted", "minted", "built", "subst", "subst", "bitflip", "trunc", "drop-seg", "enckey-seg-filled", "noncanonical", "other-enc-key", "other-sign-key",
+// c15CurSignKey is the signing key of the case being run (32 characters, or 64 with long_signing_key).
+var c15CurSignKey = c15SignKey
+
+var c15Kinds = []string{"sig-hs384", "sig-hs512", "minted", "minted", "built", "subst", "subst", "bitflip", "trunc", "drop-seg", "enckey-seg-filled", "noncanonical", "other-enc-key", "other-sign-key",
 	"enc-a256", "alg-other", "no-zip", "iss-other", "iss-absent", "exp", "exp-absent", "other-mode", "plain-jws", "garbage", "empty-string"}
 
 func genC15(t *rapid.T) c15Case {
 	c := c15Case{Signed: rapid.Bool().Draw(t, "signed")}
+	c.LongKey = c.Signed && rapid.IntRange(0, 2).Draw(t, "longKey") == 0
 	c.User = rapid.SampledFrom([]string{"alice.liddell", "bob@example.com", "Ünïcødé-üser-名前", "user with spaces", strings.Repeat("long-user-", 12), "x", "victim.user@example.org"}).Draw(t, "user")
 	for i, n := 0, rapid.IntRange(1, 4).Draw(t, "nreq"); i < n; i++ {
 		r := c15Req{Method: "GET", Param: "one"}
@@ -96,7 +101,7 @@ func c15Build(k c15Tok, c c15Case, now time.Time) (string, error) {
 		tok, _ := jwx.EncryptDir(header, pl, []byte(encKey), deflate)
 		return tok
 	}
-	std := func() string { return build(c.Signed, c15EncKey, c15SignKey, hdr, true) }
+	std := func() string { return build(c.Signed, c15EncKey, c15CurSignKey, hdr, true) }
 	switch k.Kind {
 	case "minted":
 		return minted, nil
@@ -133,22 +138,29 @@ func c15Build(k c15Tok, c c15Case, now time.Time) (string, error) {
 		i := strings.IndexByte(b64chars, last[len(last)-1])
 		segs[4] = last[:len(last)-1] + string(b64chars[i|1]) // 16-byte tag -> 22 chars, last carries 2 bits
 		return strings.Join(segs, "."), nil
+	case "sig-hs384", "sig-hs512":
+		// the nested signature uses another HMAC than the one the gateway signs with, under the configured key
+		alg := map[string]string{"sig-hs384": "HS384", "sig-hs512": "HS512"}[k.Kind]
+		pl, _ := json.Marshal(claims)
+		inner := jwx.SignCompact([]byte(`{"alg":"`+alg+`"}`), pl, alg, []byte(c15CurSignKey))
+		tok, _ := jwx.EncryptDir(hdr, []byte(inner), []byte(c15EncKey), true)
+		return tok, nil
 	case "other-enc-key":
-		return build(c.Signed, c15OtherKey, c15SignKey, hdr, true), nil
+		return build(c.Signed, c15OtherKey, c15CurSignKey, hdr, true), nil
 	case "other-sign-key":
 		return build(true, c15EncKey, c15OtherKey, hdr, true), nil
 	case "enc-a256":
 		h := []byte(strings.Replace(string(hdr), "A128CBC-HS256", "A256CBC-HS512", 1))
-		return build(c.Signed, c15EncKey, c15SignKey, h, true), nil
+		return build(c.Signed, c15EncKey, c15CurSignKey, h, true), nil
 	case "alg-other":
 		h := []byte(strings.Replace(string(hdr), `"dir"`, `"A128KW"`, 1))
-		return build(c.Signed, c15EncKey, c15SignKey, h, true), nil
+		return build(c.Signed, c15EncKey, c15CurSignKey, h, true), nil
 	case "no-zip":
 		var m map[string]any
 		json.Unmarshal(hdr, &m)
 		delete(m, "zip")
 		h, _ := json.Marshal(m)
-		return build(c.Signed, c15EncKey, c15SignKey, h, false), nil
+		return build(c.Signed, c15EncKey, c15CurSignKey, h, false), nil
 	case "iss-other":
 		claims["iss"] = "not-rdpgw"
 		return std(), nil
@@ -162,10 +174,10 @@ func c15Build(k c15Tok, c c15Case, now time.Time) (string, error) {
 		delete(claims, "exp")
 		return std(), nil
 	case "other-mode":
-		return build(!c.Signed, c15EncKey, c15SignKey, hdr, true), nil
+		return build(!c.Signed, c15EncKey, c15CurSignKey, hdr, true), nil
 	case "plain-jws":
 		pl, _ := json.Marshal(claims)
-		return jwx.SignCompact([]byte(`{"alg":"HS256"}`), pl, "HS256", []byte(c15SignKey)), nil
+		return jwx.SignCompact([]byte(`{"alg":"HS256"}`), pl, "HS256", []byte(c15CurSignKey)), nil
 	case "garbage":
 		return k.Str, nil
 	case "empty-string":
@@ -197,7 +209,7 @@ func c15Verdict(tok string, signed bool, now time.Time) (verdict, reason, sub st
 		if !isJWS {
 			return mustReject, "not signed (token of the encrypt-only mode)", ""
 		}
-		ji, err := jwx.InspectJWS(string(pl), []byte(c15SignKey))
+		ji, err := jwx.InspectJWS(string(pl), []byte(c15CurSignKey))
 		if err != nil || !ji.MACOK {
 			return mustReject, "inner signature", ""
 		}
@@ -233,8 +245,12 @@ func c15Verdict(tok string, signed bool, now time.Time) (verdict, reason, sub st
 
 func runC15(c c15Case) *Violation {
 	security.UserEncryptionKey = []byte(c15EncKey)
+	c15CurSignKey = c15SignKey
+	if c.LongKey {
+		c15CurSignKey = c15SignKey + c15SignKey
+	}
 	if c.Signed {
-		security.UserSigningKey = []byte(c15SignKey)
+		security.UserSigningKey = []byte(c15CurSignKey)
 	} else {
 		security.UserSigningKey = nil
 	}
@@ -348,6 +364,7 @@ func TestC15_BIN(t *testing.T) {
 			return viol("bin/start", "%v", err)
 		}
 		// the harness mints with the same keys the instance was configured with
+		c15CurSignKey = c15SignKey // the instance is configured with the 32-character key
 		security.UserEncryptionKey = []byte(c15EncKey)
 		security.UserSigningKey = nil
 		if c.Signed {
